@@ -287,6 +287,12 @@ def D30():
     op = sc('c', min_cap=-1, max_cap=1, freq='7d').setup_optim_problem({'p': np.ones(tg.T)}, tg)
     return f"daily CET grid over the DST switch (one 23 h day), weekly asset: weights per week sum to {np.round(op.mapping.groupby(level=0).disp_factor.sum().values, 5)} (1 expected)"
 
+@witness
+def D31():
+    tg = grid(); c = A.Contract(name='c', nodes=N1, price='p', min_cap=-1, max_cap=1, periodicity='d', min_take={'start': dt.datetime(2021, 1, 1), 'end': dt.datetime(2021, 1, 2), 'values': -3.})
+    op = c.setup_optim_problem({'p': np.ones(tg.T)}, tg)
+    return f"no error, {len(op.c)} variables"
+
 if __name__ == '__main__':
     which = sys.argv[1:] or list(W)
     for k in which:
